@@ -62,6 +62,11 @@ func checkC10(c c10Case) string {
 	if m := b.metaDiff(); m != "" {
 		return m
 	}
+	if sampledForInterference(c.Cues) {
+		if m := interference(b.sub); m != "" {
+			return m
+		}
+	}
 	if c.Again {
 		// second round on the same value: shift (positive: nothing is clamped or removed), then fragment again
 		b.sub.Add(time.Duration(c.ShiftD))
